@@ -45,6 +45,40 @@ func (r *run) sendAs(name, method string, req proto.Message) callResult {
 	}
 }
 
+// checkLogStructure: whatever a (mis)behaving client sends and whether it is refused or accepted, the
+// stored log of every datatype stays a log: server sequence numbers 1..n, n the recorded end (C06's
+// statement, demanded here after every rogue request of a C16 run). Not evaluated once a database
+// fault has interrupted a commit in this run: then the recorded end may lag until the next push.
+func (r *run) checkLogStructure(mut string, wasRefused bool) {
+	if !r.on("refuse") {
+		return
+	}
+	for k, v := range r.res.Faults {
+		if (strings.HasPrefix(k, "mongo-") || k == "server-crash") && v > 0 && k != "mongo-slow" && k != "mongo-stall" {
+			return
+		}
+	}
+	dts, _ := r.readStore()
+	for _, duid := range sortedKeys(dts) {
+		di := dts[duid]
+		if di.doc.Key == "?orphan" {
+			continue
+		}
+		n := uint64(len(di.ops))
+		for i, so := range di.ops {
+			if so.doc.Sseq != uint64(i+1) {
+				r.fail("refuse", "C16.log-stays-sound", "sseq/"+mut, "after the request mutated by %q (refused=%v) the stored server sequence numbers of %s are %v, expected 1..%d", mut, wasRefused, di.doc.Key, sseqs(di.ops), n)
+				return
+			}
+		}
+		if di.doc.Sseq.End != n {
+			r.fail("refuse", "C16.log-stays-sound", "end/"+mut, "after the request mutated by %q (refused=%v) the recorded end of the log of %s is %d but %d operations are stored", mut, wasRefused, di.doc.Key, di.doc.Sseq.End, n)
+			return
+		}
+	}
+	r.probe("rogue-log-structure-checked")
+}
+
 // sendAsFaulty is sendAs with a fault plan for the database commands of the call.
 func (r *run) sendAsFaulty(name, method string, req proto.Message, mf []MongoFault) callResult {
 	if len(mf) == 0 {
@@ -369,6 +403,7 @@ func (r *run) rogue(e Ev) {
 		return
 	}
 	after := r.committedDigest()
+	r.checkLogStructure(mut, refused(res))
 	if usedKey != "" {
 		r.probe("rogue-used-duid-sent")
 		if now := r.partition(usedNum, usedKey); now != usedBefore {
